@@ -84,6 +84,36 @@ theorem mem_netActions (sys : ActorSys σ η) (L : List Env) (prev : Option (Nat
           · exact Or.inl ⟨rfl, hl⟩
           · exact Or.inr (Or.inr ⟨x, rfl, hl, hx⟩)
 
+theorem netActions_kinds (sys : ActorSys σ η) (prev : Option (Nat × Nat)) (L : List Env) (a : Action)
+    (h : a ∈ netActions sys prev L) : (∃ e, a = .deliver e) ∨ (∃ e, a = .drop e) := by
+  induction L generalizing prev with
+  | nil => simp [netActions] at h
+  | cons e es ih =>
+    unfold netActions at h
+    have hd : ∀ x : Action, x ∈ (if sys.lossy then [Action.drop e] else []) → x = .drop e := by
+      intro x hx; by_cases hl : sys.lossy <;> simp [hl] at hx; exact hx
+    by_cases h1 : e.dst < sys.n
+    · by_cases h2 : sys.initNet.isOrdered = true
+      · by_cases h3 : prev = some (e.src, e.dst)
+        · simp only [h1, h2, h3, if_true, List.mem_append] at h
+          rcases h with h | h
+          · exact Or.inr ⟨e, hd a h⟩
+          · exact ih _ h
+        · simp only [h1, h2, h3, if_true, if_false, List.mem_append, List.mem_singleton] at h
+          rcases h with (h | h) | h
+          · exact Or.inr ⟨e, hd a h⟩
+          · exact Or.inl ⟨e, h⟩
+          · exact ih _ h
+      · simp only [h1, h2, if_true, if_false, List.mem_append, List.mem_singleton, Bool.false_eq_true] at h
+        rcases h with (h | h) | h
+        · exact Or.inr ⟨e, hd a h⟩
+        · exact Or.inl ⟨e, h⟩
+        · exact ih _ h
+    · simp only [h1, if_false, List.mem_append] at h
+      rcases h with h | h
+      · exact Or.inr ⟨e, hd a h⟩
+      · exact ih _ h
+
 theorem mem_timeoutActions (timers : List (List Nat)) (a : Action) :
     a ∈ timeoutActions timers ↔ ∃ i t ts, a = .timeout i t ∧ timers[i]? = some ts ∧ t ∈ ts := by
   simp only [timeoutActions, List.mem_flatMap, List.mem_map]
